@@ -223,5 +223,5 @@ pub fn replay(v: &Value) -> Vec<Failure> {
         return vec![];
     }
     let steps = hist.as_array().cloned().unwrap_or_default();
-    vec![Failure { signature: format!("C13:{}:{}", kind_of(&d), steps.iter().map(class_of_step).collect::<Vec<_>>().join(" ; ")), case: v.clone(), detail: d.join("; ") }]
+    vec![Failure { signature: format!("C13:{}:{}", kind_of(&d), steps.iter().map(class_of_step).collect::<Vec<_>>().join(" ; ")), case: v.clone(), detail: d.join("; "), hash: 0 }]
 }
